@@ -183,16 +183,19 @@ impl Crossover for Bitstring {
         other: &mut Self,
         range: std::ops::Range<usize>,
     ) -> Result<(), Self::SegmentCrossoverError> {
-        let lhs = &mut self.bits[range.clone()];
-        let rhs = &mut other.bits[range.clone()];
-        if lhs.len() == rhs.len() {
-            lhs.swap_with_slice(rhs);
-            Ok(())
-        } else {
-            Err(GeneAccessRange {
+        let bitstring_size = self.size();
+        match (
+            self.bits.get_mut(range.clone()),
+            other.bits.get_mut(range.clone()),
+        ) {
+            (Some(lhs), Some(rhs)) => {
+                lhs.swap_with_slice(rhs);
+                Ok(())
+            }
+            _ => Err(GeneAccessRange {
                 range,
-                bitstring_size: self.size(),
-            })
+                bitstring_size,
+            }),
         }
     }
 }
